@@ -7,6 +7,7 @@
 -/
 import NextestModel.Lemmas.Sched
 import NextestModel.Model.Priority
+import NextestModel.Gen.Tables
 namespace NextestModel.C08
 open NextestModel.Sched
 theorem init_ok (maxW : Nat) (gm : List Nat) (items : List Item) : GlobalOk (SState.init maxW gm items) := by
@@ -374,5 +375,10 @@ theorem full_width_test_runs_alone (maxW : Nat) (gm : List Nat) (items : List It
   have hz : ((pre ++ post).map (gw maxW)).sum = 0 := by
     simp only [List.map_append, List.sum_append]; omega
   exact sum_zero_each _ hz _ (List.mem_map.mpr ⟨x, hx, rfl⟩)
+
+/-- **the wiring in runner/imp.rs, as read on this run, is `runTestThreads` / `testWeight`**: the run is one test wide without
+    capture, else as wide as the command line says, else as the profile says; a test is queued with its threads-required computed
+    against *that* width (not the profile's, not its group's); the queue is that wide and a group as wide as its max-threads -/
+theorem weight_wiring_is_the_models : ∀ r ∈ Gen.weightWiring, r.2 = true := by decide
 
 end NextestModel.C08
